@@ -199,6 +199,18 @@ def spec_parse_verdict(ip, mq):
     return 'ok' if _SPAN.sub(_zw, ip) == _SPAN.sub(_zw, mq) else 'violation'
 
 
+def compare_flags(R, recs, limit=20):
+    """always_succeeds()/can_partially_succeed() of every exported node vs the model's Flags"""
+    bad, nflags = flags_lines(recs)
+    st = R.stream('flags')
+    st['cases'] += nflags
+    for (r, idx, want, got) in bad[:limit]:
+        R.disagree('flags', {'grammar': r['desc'], 'rule': r['ex']['rule_names'][idx]},
+                   'python flags ' + want, 'model flags ' + got)
+    st['model_vs_impl_disagreements'] += max(0, len(bad) - limit)
+    return len(bad)
+
+
 def compare(R, recs, stream, mechanism_of=None, check_parse=True, sample_every=997, explain_rec=None):
     """feed a batch of records into the Run: correspondence + spec check"""
     hist = R.extra.setdefault('outcomes', {}).setdefault(stream, {})
@@ -246,4 +258,5 @@ def compare(R, recs, stream, mechanism_of=None, check_parse=True, sample_every=9
                     R.counterexample(stream + ':parse', mech2, case, mq, ip)
             if n % sample_every == 1 and len(R.samples) < 10:
                 R.samples.append({'case': case, 'implementation': ix, 'model': mx, 'spec': ms})
+    compare_flags(R, recs)
     return n
